@@ -54,6 +54,76 @@ def summary(db, h, memo, depth=0):
     return out
 
 
+def must_summary(db, h, memo, depth=0):
+    """like summary, but a parameter counts for an access kind only if it flows there on EVERY path of h (phi -> intersection)"""
+    if h.dp in memo:
+        return memo[h.dp]
+    memo[h.dp] = {}
+
+    def from_expr(e):
+        out = {}
+        if e[0] == "agg" and e[1] == MA:
+            for kind in KINDS:
+                if kind in e[3]:
+                    for p in must_leaves(e[3][kind]):
+                        out.setdefault(p, set()).add(kind)
+        elif e[0] == "phi":
+            alts = [from_expr(x) for x in e[1]]
+            for p in set().union(*[set(a) for a in alts]) if alts else ():
+                common = set.intersection(*[a.get(p, set()) for a in alts])
+                if common:
+                    out[p] = common
+        elif e[0] == "call" and depth < 3:
+            hs = db.by_path.get(e[1], [])
+            if len(hs) == 1:
+                sub = must_summary(db, hs[0], memo, depth + 1)
+                for k, kinds in sub.items():
+                    if k - 1 < len(e[2]):
+                        for p in must_leaves(e[2][k - 1]):
+                            out.setdefault(p, set()).update(kinds)
+        return out
+
+    def must_leaves(e):
+        # parameters that certainly flow into the set expression: through calls on every argument path, not through phis
+        # unless in every alternative
+        if e[0] == "param":
+            return {e[1]}
+        if e[0] == "phi":
+            alts = [must_leaves(x) for x in e[1]]
+            return set.intersection(*alts) if alts else set()
+        if e[0] == "call":
+            hs = db.by_path.get(e[1], [])
+            out = set()
+            if len(hs) == 1 and hs[0].path.count("::") and depth < 3:
+                # a local helper returning a set: follow its return expression
+                ret = fn_expr_local(hs[0], 0)
+                inner = must_leaves(ret)
+                for k in inner:
+                    if k - 1 < len(e[2]):
+                        out |= must_leaves(e[2][k - 1])
+                return out
+            for a in e[2]:
+                out |= must_leaves(a)
+            return out
+        if e[0] in ("field", "as", "cast"):
+            return must_leaves(e[1] if e[0] != "cast" else e[2])
+        if e[0] == "agg":
+            out = set()
+            for v in e[3].values():
+                out |= must_leaves(v)
+            return out
+        if e[0] in ("tuple", "array"):
+            out = set()
+            for v in e[1]:
+                out |= must_leaves(v)
+            return out
+        return set()
+
+    out = from_expr(fn_expr_local(h, 0))
+    memo[h.dp] = out
+    return out
+
+
 def run(ctx):
     res = Result("C27")
     db = ctx.db("quil_rs")
@@ -257,6 +327,39 @@ def run(ctx):
             res.site(key, True, {"merge_sites": len(sites_), "verdict": "ok" if ok else "VIOLATION"})
             if not ok:
                 res.find(key, u.loc(), "MemoryAccesses::union does not merge `rhs.%s` into `self.%s` on every path" % (fld, fld), "the accesses of `DEFCIRCUIT c q: MEASURE q ro; RZ(theta) q` lose the capture of `ro`")
+    # a region that is certainly there (a helper parameter of type &MemoryReference) is reported the same way on every
+    # path of the helper: a helper that reports the destination of an updating operator as read on one path only loses
+    # that read for some operand shapes
+    memo_may, memo_must = {}, {}
+    nh = 0
+    for h in db.fns:
+        if not h.path.startswith(f.path + "::") or "{closure" in h.path or h.is_derived():
+            continue
+        may = summary(db, h, memo_may)
+        must = must_summary(db, h, memo_must)
+        for pi in range(1, h.argc + 1):
+            ty = h.local_ty(pi)
+            while ty["k"] in ("ref", "ptr"):
+                ty = db.types[ty["t"]]
+            if not (ty["k"] == "adt" and ty["path"].endswith("::MemoryReference")):
+                continue
+            nh += 1
+            key = "K5|helper-path-independent|%s|%s" % (h.name, h.local_name(pi))
+            ok = may.get(pi, set()) == must.get(pi, set())
+            res.site(key, True, {"helper": h.name, "parameter": h.local_name(pi), "on_some_path": sorted(may.get(pi, set())), "on_every_path": sorted(must.get(pi, set())), "verdict": "ok" if ok else "VIOLATION"})
+            if not ok:
+                res.find(key, h.loc(), "helper `%s` reports its `%s` as %s on some paths but only as %s on every path" % (h.name, h.local_name(pi), sorted(may.get(pi, set())), sorted(must.get(pi, set()))), "`ADD a b` (b a memory reference): the read of `a` is not reported")
+    res.count("helper_memory_reference_parameters", nh, floor=4)
+    # references are collected from the expression as written: a region that appears in an instruction's expression is
+    # consulted when the instruction runs, whatever an algebraic simplifier would make of the expression
+    key = "K5|references-from-expression-as-written"
+    fam = [g_ for g_ in db.fns if g_.path == f.path or g_.path.startswith(f.path + "::")]
+    rewrites = sorted({c.get("name") for g_ in fam for bb, t, c in g_.calls() if c and c.get("name") in ("into_simplified", "simplify", "simplified", "substitute_variables", "evaluate")})
+    mr = sum(1 for g_ in fam for bb, t, c in g_.calls() if c and c.get("name") == "memory_references")
+    ok = not rewrites and mr >= 1
+    res.site(key, True, {"memory_references_calls": mr, "expression_rewrites": rewrites, "verdict": "ok" if ok else "VIOLATION"})
+    if not ok:
+        res.find(key, f.loc(), "memory_accesses rewrites an expression (%s) before listing its memory references: references the rewrite removes are not reported as read" % rewrites, "`SET-PHASE 0 \"rf\" 0*theta[0]` does not read theta")
     res.explanation = "Per-variant operand-to-access-kind flows (%d table rows) computed from the MemoryAccesses aggregates and helper summaries of DefaultHandler::memory_accesses, compared with the specification table; exhaustive match; CALL's mutable-dependent writes." % nrows
     res.assumptions = ["oracle table in qv/oracles/memory_access_table.py"]
     return res
